@@ -50,6 +50,8 @@ TEMPLATES = {
     # details ignored, but the TYPE must still agree
     'detail_bad':   (["raise ValueError('bad value 3.5' + (mark({k}) or ''))  # xdoctest: +IGNORE_EXCEPTION_DETAIL"],
                      ["Traceback (most recent call last):", "    ...", "KeyError: see the docs."], ('raise', 'ValueError', 'bad value 3.5', 'type_differs')),
+    # a traceback want on code that does not raise
+    'tb_no_raise':  (["w{k} = mark({k})"], ["Traceback (most recent call last):", "    ...", "ValueError: never raised"], ('quiet',)),
     'detail_dots':  (["raise KeyError('k{k}' + (mark({k}) or ''))  # xdoctest: +IGNORE_EXCEPTION_DETAIL"],
                      ["Traceback (most recent call last):", "    ...", "ValueError..."], ('raise', 'KeyError', 'k{k}', 'type_differs')),
     'detail_ok':    (["raise ValueError('bad value 3.5' + (mark({k}) or ''))  # xdoctest: +IGNORE_EXCEPTION_DETAIL"],
